@@ -575,29 +575,31 @@ class EndpointLookupInterface(ThingWithCommonRD, ObservableResource):
                             original_matches(v) for v in x.split()
                         )
 
+                # The filters bind search_key and matches as defaults: generator
+                # expressions would look them up only when the list is built,
+                # ie. after the loop, and apply the last criterion to all stages
                 if search_key == "href":
-                    candidates = (
-                        c
-                        for c in candidates
-                        if matches(c.href)
-                        or any(matches(r.href) for r in c.get_based_links().links)
-                    )
+
+                    def keep(c, matches=matches):
+                        return matches(c.href) or any(
+                            matches(r.href) for r in c.get_based_links().links
+                        )
+
+                    candidates = filter(keep, candidates)
                     continue
 
-                candidates = (
-                    c
-                    for c in candidates
-                    if (
+                def keep(c, matches=matches, search_key=search_key):
+                    return (
                         search_key in c.registration_parameters
                         and any(
                             matches(x) for x in c.registration_parameters[search_key]
                         )
-                    )
-                    or any(
+                    ) or any(
                         _link_matches(r, search_key, matches)
                         for r in c.get_based_links().links
                     )
-                )
+
+                candidates = filter(keep, candidates)
 
         candidates = _paginate(candidates, query)
 
@@ -637,28 +639,27 @@ class ResourceLookupInterface(ThingWithCommonRD, ObservableResource):
                             original_matches(v) for v in x.split()
                         )
 
+                # see EndpointLookupInterface: bind the criterion early
                 if search_key == "href":
-                    candidates = (
-                        (e, c)
-                        for (e, c) in candidates
-                        if matches(c.href)
-                        or matches(
-                            e.href
-                        )  # FIXME: They SHOULD give this as relative as we do, but don't have to
-                    )
+
+                    def keep(ec, matches=matches):
+                        (e, c) = ec
+                        # FIXME: They SHOULD give this as relative as we do, but don't have to
+                        return matches(c.href) or matches(e.href)
+
+                    candidates = filter(keep, candidates)
                     continue
 
-                candidates = (
-                    (e, c)
-                    for (e, c) in candidates
-                    if _link_matches(c, search_key, matches)
-                    or (
+                def keep(ec, matches=matches, search_key=search_key):
+                    (e, c) = ec
+                    return _link_matches(c, search_key, matches) or (
                         search_key in e.registration_parameters
                         and any(
                             matches(x) for x in e.registration_parameters[search_key]
                         )
                     )
-                )
+
+                candidates = filter(keep, candidates)
 
         # strip endpoint
         candidates = (c for (e, c) in candidates)
